@@ -203,7 +203,7 @@ var baseEnv = initBaseEnv(map[string]Extension{
 		EvalContextHandler: defaultContextHandler,
 	},
 	"round": {
-		Func:               jlib.Round,
+		Func:               roundToJSONNumber,
 		UndefinedHandler:   defaultUndefinedHandler,
 		EvalContextHandler: defaultContextHandler,
 	},
@@ -519,6 +519,18 @@ func contextHandlerReplace(argv []reflect.Value) bool {
 	default:
 		return false
 	}
+}
+
+// roundToJSONNumber is $round. Rounding to a negative precision can
+// leave the range of a float64 (e.g. $round(1.7e308, -308)); like
+// the arithmetic operators, $round reports that as an error rather
+// than returning an infinite number.
+func roundToJSONNumber(x float64, prec jtypes.OptionalInt) (float64, error) {
+	res := jlib.Round(x, prec)
+	if math.IsInf(res, 0) || math.IsNaN(res) {
+		return 0, errors.New("the round function has resulted in a value that cannot be represented as a JSON number")
+	}
+	return res, nil
 }
 
 func contextHandlerFormatNumber(argv []reflect.Value) bool {
